@@ -746,6 +746,9 @@ class MergeDirective2(BaseMergeDirective):
         kwargs["base_revision_id"] = kwargs["base_revision_id"].encode("utf-8")
         if "testament_sha1" in kwargs:
             kwargs["testament_sha1"] = kwargs["testament_sha1"].encode("ascii")
+        else:
+            # _to_lines() leaves the tag out when there is no testament sha1
+            kwargs["testament_sha1"] = None
         return cls(time=time, timezone=timezone, patch=patch, bundle=bundle, **kwargs)
 
     def to_lines(self):
